@@ -21,6 +21,9 @@ ASSUMPTIONS = [
     "'committed' is defined as: the reference digest of the input's signatures changes",
     "validation flags: pycoin's default (P2SH|WITNESS) and the standard set, alternating per history",
     "spent amounts are non-zero so that the appended-unspents serialisation used for the fresh-object comparison can represent them",
+    "signed bytes re-loaded under another coin's class: on fork-id coins a legacy-path signature without the fork-id bit is refused "
+    "(spend fails); witness-v0 checks on those coins use the BIP143 digest with the hash-type byte as given (BTG: fork id folded in) "
+    "without a fork-id requirement, as the coins themselves have no segwit rule to compare with",
 ]
 EXPLANATION = "per-input verdicts of the live object == reference verdicts == verdicts of a fresh object parsed from as_bin(include_unspents=True); inputs with missing spent output are never valid"
 TIMEOUT = {"quick": 900, "thorough": 4 * 3600}
@@ -49,10 +52,59 @@ class Tamper(c05.History):
         self.mlog = []
 
     # ----------------------------------------------------------------------------------------------
+    def attach_sources(self):
+        """give every input a real source transaction (so that spent outputs can also be looked up in a database)"""
+        Tx = self.net.tx
+        self.sources = {}
+        for k, (ti, p) in enumerate(zip(self.tx.txs_in, self.puzzles)):
+            idx = self.rng.randrange(3)
+            outs = [Tx.TxOut(7 + j, b"\x51") for j in range(idx)] + [Tx.TxOut(p.amount, p.spk)]
+            src = Tx(1, [Tx.TxIn(G.rand_prev(self.rng), k, b"\x51")], outs)
+            ti.previous_hash, ti.previous_index = src.hash(), idx
+            self.sources[src.hash()] = src
+
+    def database_check(self):
+        """spent outputs fetched from a transaction database: with an honest database every input validates; an entry filed
+        under an outpoint's hash that is NOT that transaction leaves the spent output unknown - never reported valid"""
+        rec, Tx = self.rec, self.net.tx
+        plain = self.tx.as_bin()
+        st, t2 = observe(Tx.from_bin, plain)
+        if st != "ok":
+            return
+        st, _ = observe(t2.unspents_from_db, dict(self.sources))
+        rec.ev("Tx.unspents_from_db")
+        kw = {} if self.use_flags is None else {"flags": self.use_flags}
+        if st != "ok" or [t2.is_solution_ok(i, **kw) for i in range(len(t2.txs_in))] != [True] * len(t2.txs_in):
+            rec.violation("database.honest_db_not_valid", self.case(), st, "all inputs valid")
+            return
+        k = self.rng.randrange(len(self.tx.txs_in))
+        ti = self.tx.txs_in[k]
+        real = self.sources[ti.previous_hash]
+        variant = self.rng.choice(["same_outputs_other_version", "amount_changed", "other_tx_same_script"])
+        outs = [Tx.TxOut(o.coin_value, o.script) for o in real.txs_out]
+        if variant == "amount_changed":
+            outs[ti.previous_index] = Tx.TxOut(outs[ti.previous_index].coin_value + 1, outs[ti.previous_index].script)
+        fake = Tx(2 if variant != "other_tx_same_script" else 1, [Tx.TxIn(G.rand_prev(self.rng), 9, b"\x52")], outs)
+        db = dict(self.sources)
+        db[ti.previous_hash] = fake
+        t3 = Tx.from_bin(plain)
+        st, r = observe(t3.unspents_from_db, db, ignore_missing=True)
+        rec.ev("Tx.unspents_from_db(poisoned)")
+        case = self.case({"poisoned_input": k, "variant": variant})
+        if st != "ok":
+            rec.violation("database.poisoned_db_raises_with_ignore_missing", case, r, "unknown spent output")
+            return
+        stv, v = observe(t3.is_solution_ok, k, **kw)
+        if stv != "ok" or v is not False:
+            rec.violation("database.unknown_spent_output_reported_valid." + variant, case, v, False)
+        t4 = Tx.from_bin(plain)
+        st, r = observe(t4.unspents_from_db, db)
+        if st == "ok" and t4.is_solution_ok(k, **kw) is not False:
+            rec.violation("database.unknown_spent_output_reported_valid.strict." + variant, case, True, False)
+
     def sign_all(self):
         self.build()
-        for p in self.puzzles:              # amounts must be non-zero for the unspents extension
-            pass
+        self.attach_sources()
         keys = set()
         for p in self.puzzles:
             keys |= set(self.rng.sample(p.key_idx, p.m)) if p.m is not None else set(p.key_idx)
@@ -200,6 +252,37 @@ class Tamper(c05.History):
         for ti, s, w in snap:
             ti.script, ti.witness = s, list(w)
 
+    def foreign_network_check(self, ht):
+        """the same signed bytes loaded under another coin's transaction class: signatures made for one coin validate under
+        another exactly when that coin's digest and hash-type rules say so (a BTC signature never validates on BCH/BTG/GRS)"""
+        from pycoin.networks.registry import network_for_netcode
+        rec = self.rec
+        blob = self.tx.as_bin(include_unspents=True)
+        for code in self.rng.sample(["BTC", "LTC", "BCH", "BTG", "GRS", "DOGE"], 2):
+            if code == self.netcode:
+                continue
+            other = network_for_netcode(code)
+            fork = c05.FORK.get(code, ("grs", 0) if code in c05.GRS_NETS else ("", 0))
+            st, tx2 = observe(other.tx.from_bin, blob)
+            if st != "ok":
+                rec.violation("foreign_network.parse_raises", self.case({"other": code}), tx2, "transaction")
+                continue
+            flags = (self.flags & ~RS.STRICTENC) if fork[0] in ("bch", "btg") else self.flags
+            rt = {"version": tx2.version & 0xffffffff, "lock_time": tx2.lock_time,
+                  "ins": [{"prev": i.previous_hash, "index": i.previous_index, "script": bytes(i.script), "sequence": i.sequence,
+                           "witness": [bytes(w) for w in i.witness]} for i in tx2.txs_in],
+                  "outs": [{"value": o.coin_value, "script": bytes(o.script)} for o in tx2.txs_out]}
+            for i, p in enumerate(self.puzzles):
+                chk = c05.ForkChecker(rt, i, p.amount, fork)
+                ref = RS.result_of(RS.verify_script, rt["ins"][i]["script"], p.spk, rt["ins"][i]["witness"], flags, chk) == "OK"
+                stv, got = observe(tx2.is_solution_ok, i, flags=flags)
+                rec.ev("foreign_network_validation")
+                rec.ev("foreign_network.%s" % ("valid" if ref else "invalid"))
+                if stv != "ok" or got is not ref:
+                    rec.violation("foreign_network.%s_signature_%s_on_%s" % (
+                        self.fork[0] or "btc", "accepted" if got is True else "rejected_or_raises", fork[0] or "btc"),
+                        self.case({"other": code, "input": i, "hash_type_name": ht}), got, ref)
+
     # ----------------------------------------------------------------------------------------------
     def run(self):
         rec, rng = self.rec, self.rng
@@ -211,6 +294,8 @@ class Tamper(c05.History):
             rec.violation("setup.signed_tx_not_valid", self.case(), [base_live, base_ref], "all inputs valid")
             return
         ht = HT_NAMES.get(self.hash_type, "other")
+        self.foreign_network_check(ht)
+        self.database_check()
         muts = self.mutations()
         rng.shuffle(muts)
         budget = min(len(muts), 40)
@@ -286,7 +371,7 @@ class Tamper(c05.History):
 
 def run_shard(spec, rec):
     from pycoin.networks.registry import network_for_netcode
-    rec.require("Tx.is_solution_ok", "fresh_object_compared", "missing_unspent_checked")
+    rec.require("Tx.is_solution_ok", "fresh_object_compared", "missing_unspent_checked", "foreign_network_validation", "Tx.unspents_from_db(poisoned)")
     for ht in ("all", "none", "single", "all+acp", "none+acp", "single+acp"):
         pass
     keys = G.Keys(24)
